@@ -30,7 +30,7 @@ class Raised(Exception):
 
 SAFE_BUILTINS = {
     "len": len, "range": range, "enumerate": enumerate, "str": str, "int": int, "list": list, "tuple": tuple, "sum": sum, "max": max, "min": min,
-    "dedent": textwrap.dedent, "zip": zip, "sorted": sorted, "repr": repr, "bool": bool, "abs": abs, "reversed": reversed, "ord": ord, "chr": chr, "set": set, "frozenset": frozenset, "any": any, "all": all, "bytes": bytes, "bytearray": bytearray, "divmod": divmod,
+    "dedent": textwrap.dedent, "zip": zip, "sorted": sorted, "repr": repr, "bool": bool, "abs": abs, "reversed": reversed, "ord": ord, "chr": chr, "set": set, "frozenset": frozenset, "any": any, "all": all, "dict": dict, "bytes": bytes, "bytearray": bytearray, "divmod": divmod,
 }
 SAFE_METHODS = {
     str: {"encode", "isdigit", "isalpha", "isalnum", "isnumeric", "isidentifier", "isspace", "join", "strip", "lstrip", "rstrip", "format", "startswith", "endswith", "split", "replace", "upper", "lower", "partition"},
@@ -168,7 +168,16 @@ class Evaluator:
                     out.append(self.ev(x, env))
             return tuple(out) if isinstance(e, ast.Tuple) else (set(out) if isinstance(e, ast.Set) else out)
         if isinstance(e, ast.Dict):
-            return {self.ev(k, env): self.ev(v, env) for k, v in zip(e.keys, e.values)}
+            outd0: dict = {}
+            for k, v in zip(e.keys, e.values):
+                if k is None:
+                    more = self.ev(v, env)
+                    if not isinstance(more, dict):
+                        raise Refused("** of a non-dict in a dict display")
+                    outd0.update(more)
+                else:
+                    outd0[self.ev(k, env)] = self.ev(v, env)
+            return outd0
         if isinstance(e, ast.BinOp):
             if type(e.op) not in _BIN:
                 raise Refused(f"operator {type(e.op).__name__}")
@@ -203,6 +212,8 @@ class Evaluator:
                 st = self.ev(e.slice.step, env) if e.slice.step else None
                 return v[lo:hi:st]
             return v[self.ev(e.slice, env)]
+        if isinstance(e, ast.Attribute) and isinstance(e.value, ast.Name) and e.value.id == "dict" and e.attr == "fromkeys" and "dict" not in env:
+            return dict.fromkeys
         if isinstance(e, ast.Attribute):
             v = self.ev(e.value, env)
             if isinstance(v, Sym):
@@ -243,6 +254,8 @@ class Evaluator:
                 if isinstance(m, Host):
                     return m.fn(*args, **kwargs)
                 return m(*args, **kwargs) if callable(m) else m
+            if f == dict.fromkeys:
+                return dict.fromkeys(*args)
             if f in SAFE_BUILTINS.values() or (hasattr(f, "__self__") and type(f.__self__) in SAFE_METHODS and f.__name__ in SAFE_METHODS[type(f.__self__)]):
                 r = f(*args, **kwargs)
                 if isinstance(r, (range, enumerate, zip)) or type(r).__name__ in ("dict_keys", "dict_values", "dict_items", "reversed", "list_reverseiterator"):
